@@ -141,6 +141,10 @@ func (x *Exec) checkEnsures(st *State, res []Val, pos token.Pos) {
 // ---------------------------------------------------------------------
 // discharging
 
+// scopeBase: block tags at or below this value mark assumptions that are in
+// scope for a single obligation only (see maporder.go).
+const scopeBase = -1000
+
 func (o *Obligation) query() string { return o.queryWith(false) }
 
 func (o *Obligation) queryWith(slice bool) string {
@@ -166,6 +170,18 @@ func (o *Obligation) queryWith(slice bool) string {
 			if blk := c.assertBlk[i]; blk >= 0 && blk < len(c.reach) && !c.reach[blk][o.block] {
 				keep[i] = false
 			}
+		}
+	}
+	// scoped assumptions (blk <= scopeBase) belong to exactly one obligation
+	for i := 0; i < o.nAssert && i < len(c.assertBlk); i++ {
+		if blk := c.assertBlk[i]; blk <= scopeBase && blk != o.scope {
+			if keep == nil {
+				keep = make([]bool, o.nAssert)
+				for j := range keep {
+					keep[j] = true
+				}
+			}
+			keep[i] = false
 		}
 	}
 	for i, a := range c.assert[:o.nAssert] {
@@ -391,7 +407,7 @@ func (v *Verifier) discharge(obls []*Obligation, dir string, timeoutS int, thoro
 					return
 				}
 				o.Result = res
-				if res.Status == "unsat" {
+				if res.Status == "unsat" && os.Getenv("GOVC_KEEP_PROVED") == "" {
 					os.Remove(filepath.Join(dir, names[i]+".smt2"))
 				}
 				os.Remove(filepath.Join(dir, names[i]+".sl.smt2"))
@@ -470,9 +486,19 @@ func (v *Verifier) incremental(obls []*Obligation, todo []int, jobs int, names [
 			for _, i := range idx {
 				o := obls[i]
 				for ; done < o.nAssert; done++ {
+					if done < len(c.assertBlk) && c.assertBlk[done] <= scopeBase {
+						continue // scoped: only inside the push of its own obligation
+					}
 					b.WriteString("(assert " + c.assert[done] + ")\n")
 				}
 				b.WriteString("(push 1)\n")
+				if o.scope != 0 {
+					for k := 0; k < o.nAssert && k < len(c.assertBlk); k++ {
+						if c.assertBlk[k] == o.scope {
+							b.WriteString("(assert " + c.assert[k] + ")\n")
+						}
+					}
+				}
 				for _, a := range o.extra {
 					b.WriteString("(assert " + a + ")\n")
 				}
